@@ -4,8 +4,9 @@
   The state transformers of `TracepointConfigService`, `LongPoll.poll` and `TriggerHandler.new_config` are
   `Extracted.ConfigSvc.*`, regenerated from the Python source on every run.  This file adds:
     * what a poll *response* is (`RawTp`, `convertResponse`) and how a failed poll meets the timer loop,
-    * the background tasks: `update_listeners` runs on a pool thread in three atomic regions —
-        `taskRead`    (take the update lock, read the polled configuration into a local)
+    * the background tasks: `update_listeners` runs on a pool thread in four atomic regions —
+        `taskStart`   (the statements before the update lock; the task then stands in front of the lock)
+        `taskRead`    (take the update lock, run the statements before the listener loop)
         `taskCall`    (evaluate the listener's argument: that local ++ the custom list as it is *then*)
         `taskInstall` (the listener stores it in the handler; lock released)
       any number of workers, any order; with the lock a second task cannot enter `taskRead` while one holds a value,
@@ -32,21 +33,24 @@ def convertResponse (tps : List RawTp) : Option (List Trig) :=
   else if tps.all (·.interpretable) then some (tps.map (·.trig))
   else none
 
-/-- a task inside `update_listeners`: the value it carries, and whether that is already the listener's argument -/
+/-- a task inside the locked part of `update_listeners`: its locals, and the listener's argument once evaluated -/
 structure Hold where
+  loc : Locals
   val : List Trig
   argBuilt : Bool
 deriving Repr, DecidableEq
 
 structure St where
   svc : Svc
-  /-- tasks between their read and their install (at most one when the lock is there) -/
+  /-- tasks that ran the statements before the lock and have not taken it yet (any number) -/
+  pre : List Locals
+  /-- tasks between taking the lock and their install (at most one when the lock is there) -/
   holding : List Hold
   h : Handler
   timerAlive : Bool
 deriving Repr, DecidableEq
 
-def St.init : St := ⟨Svc.init, [], ⟨[], false⟩, true⟩
+def St.init : St := ⟨Svc.init, [], [], ⟨[], false⟩, true⟩
 
 inductive Op
   /-- a `PollResponse` arrived -/
@@ -57,10 +61,11 @@ inductive Op
   /-- `register_tracepoint` with arguments `build_trigger` cannot interpret (it returns None) -/
   | registerBad
   | unregister (h : Handle)
-  | taskRead (i : Nat)
+  | taskStart (i : Nat)
+  | taskRead (k : Nat)
   | taskCall (k : Nat)
   | taskInstall (k : Nat)
-  /-- the three regions of task `i` back to back (what a deterministic executor does) -/
+  /-- the four regions of task `i` back to back (what a deterministic executor does) -/
   | applyTask (i : Nat)
   /-- `LongPoll.start`: the timer thread starts; `text` = POLL_TIMER is a `str` -/
   | timerStart (text : Bool)
@@ -90,17 +95,21 @@ def step (locked : Bool) (s : St) : Op → St
   | .register t => { s with svc := (addCustom s.svc (some t)).1 }
   | .registerBad => { s with svc := (addCustom s.svc none).1 }
   | .unregister h => { s with svc := removeCustom s.svc h }
-  | .taskRead i =>
+  | .taskStart i =>
     match s.svc.queued[i]? with
     | none => s
-    | some t =>
+    | some t => { s with svc := { s.svc with queued := s.svc.queued.eraseIdx i },
+                         pre := s.pre ++ [listenerPre s.svc (Locals.init t.captured)] }
+  | .taskRead k =>
+    match s.pre[k]? with
+    | none => s
+    | some l =>
       if locked && !s.holding.isEmpty then s
-      else { s with svc := { s.svc with queued := s.svc.queued.eraseIdx i },
-                    holding := s.holding ++ [⟨listenerRead s.svc t.captured, false⟩] }
+      else { s with pre := s.pre.eraseIdx k, holding := s.holding ++ [⟨listenerRead s.svc l, [], false⟩] }
   | .taskCall k =>
     match s.holding[k]? with
     | none => s
-    | some v => if v.argBuilt then s else { s with holding := s.holding.set k ⟨listenerArg s.svc v.val, true⟩ }
+    | some v => if v.argBuilt then s else { s with holding := s.holding.set k ⟨v.loc, listenerArg s.svc v.loc, true⟩ }
   | .taskInstall k =>
     match s.holding[k]? with
     | none => s
@@ -111,7 +120,8 @@ def step (locked : Bool) (s : St) : Op → St
     | some t =>
       if locked && !s.holding.isEmpty then s
       else { s with svc := { s.svc with queued := s.svc.queued.eraseIdx i },
-                    h := newConfig s.h (listenerArg s.svc (listenerRead s.svc t.captured)) }
+                    h := newConfig s.h
+                      (listenerArg s.svc (listenerRead s.svc (listenerPre s.svc (Locals.init t.captured)))) }
   | .timerStart text => { s with timerAlive := s.timerAlive && (intervalCoerced || !text) }
 
 def runFrom (locked : Bool) (s : St) (ops : List Op) : St := ops.foldl (step locked) s
@@ -126,7 +136,7 @@ def regs (s : St) : List (Handle × Trig) := s.svc.customIds.zip s.svc.custom
 def registerHandle (s : St) (t : Option Trig) : Handle := (addCustom s.svc t).2
 
 /-- nothing in flight -/
-def quiescent (s : St) : Bool := s.svc.queued.isEmpty && s.holding.isEmpty
+def quiescent (s : St) : Bool := s.svc.queued.isEmpty && s.pre.isEmpty && s.holding.isEmpty
 
 /-! ### reference kept from the statement -/
 
